@@ -450,8 +450,19 @@ impl<'tcx> TyGenContext<'_, 'tcx> {
             ReturnType::Fallible(ref ok, _) | ReturnType::Nullable(ref ok) => {
                 let (requires_buf, error_ret) = match return_type {
                     ReturnType::Fallible(s, Some(e)) => {
-                        let type_name = self.formatter.fmt_type_name(e.id().unwrap());
-                        self.add_import(type_name, None, super::gen::ImportUsage::Both);
+                        // Custom types are imported and named in the message; a primitive error is thrown as is
+                        let type_name = match e.id() {
+                            Some(id) => {
+                                let type_name = self.formatter.fmt_type_name(id);
+                                self.add_import(
+                                    type_name.clone(),
+                                    None,
+                                    super::gen::ImportUsage::Both,
+                                );
+                                type_name
+                            }
+                            None => self.gen_js_type_str(e),
+                        };
 
                         let fields_empty = matches!(e, Type::Struct(s) if match s.resolve(self.tcx) {
                                 ReturnableStructDef::Struct(s) => s.fields.is_empty(),
@@ -477,7 +488,6 @@ impl<'tcx> TyGenContext<'_, 'tcx> {
                             0,
                         );
 
-                        let type_name = self.formatter.fmt_type_name(e.id().unwrap());
                         let cause =
                             self.gen_c_to_js_for_type(e, receive_deref, &method.lifetime_env);
                         // We still require an out buffer even if our error types is empty
